@@ -123,7 +123,9 @@ func c15Scenarios(tier string) (rulesSc, lockSc []CScenario) {
 		{Name: "two wallets: atts[0 1 2]||atts[1 2 0]||att(1)", TwoWallets: true, Threads: [][]CReq{{attsN([]int{0, 1, 2}, 0, 1)}, {attsN([]int{1, 2, 0}, 1, 2)}, {att1(1, 2, 3)}}},
 		{Name: "two wallets: signs[0 1]||atts[1 0]", TwoWallets: true, Threads: [][]CReq{{signsN(0, 1)}, {attsN([]int{1, 0}, 1, 2)}}},
 	} {
-		lockSc = append(lockSc, cs)
+		// (In front: a request that blocks outside the scheduler's sight costs a watchdog period per execution, and these
+		// scenarios must not be the ones that a budget eaten that way never reaches.)
+		lockSc = append([]CScenario{cs}, lockSc...)
 	}
 	// An instance that has already served thousands of other keys.
 	lockSc = append(lockSc, CScenario{Name: "att(0)||att(0)||atts[1 0] after many other keys", WarmKeys: warmKeys(tier), Threads: [][]CReq{{att1(0, 0, 1)}, {att1(0, 1, 2)}, {attsN([]int{1, 0}, 2, 3)}}})
